@@ -1402,3 +1402,41 @@ def rf185(run):
                           'never released' % (F.src(x)[:40], x['l']), line=x['l'])
     run.control(rule, 'the inline flag store of MIR_link found', n >= 1)
     return n
+
+
+# ---------------------------------------------------------------------------------------------
+# RF189: the environment item made by setup_global is released or listed on every path
+# ---------------------------------------------------------------------------------------------
+
+def rf189(run):
+    import rf_proto
+    rule = 'RF189'
+    run.rule(rule, 'setup_global creates an import item for the name (create-only, owned by nobody yet).  On every path to the return the item '
+                   'is either released (MIR_free) — the name is already in the environment — or appended to environment_module.items, the '
+                   'list MIR_finish walks to free the items.  Being handed to the hash table is not ownership: an insertion with an existing '
+                   'key keeps the old element, and the table never frees elements')
+    tu = run.tu('mir')
+    f = tu.func('setup_global')
+    cfg = f.cfg
+    run.functions_analysed.add(('mir', f.name))
+    crea = [x for x in f.walk() if x['k'] == 'BinaryOperator' and x['op'] == '=' and F.strip(x['c'][1])['k'] == 'CallExpr'
+            and F.strip(x['c'][1]).get('callee') in ('new_export_import_forward', 'create_item')]
+    if len(crea) != 1:
+        raise F.AnalysisBroken('setup_global: the creation of the item was not found')
+    var = F.src(F.strip(crea[0]['c'][0]))
+    owners = set()
+    for b, B in cfg.blocks.items():
+        for el in B.elems:
+            for y in F.walk(el):
+                if y['k'] == 'CallExpr' and y.get('callee') and (y['callee'].endswith('free') or 'DLIST_MIR_item_t_append' in y['callee']):
+                    if any(F.src(F.strip(a)) == var for a in F.call_args(y)):
+                        owners.add(b)
+    cb = cfg.block_of(crea[0])
+    leak = cfg.exit in cfg.reachable_from(cb, avoid=lambda b: b in owners and b != cb) and cb not in owners
+    run.ob(rule, ('item',), not leak, {'item variable': var, 'blocks that free or list it': len(owners), 'a path to the return without either': leak})
+    if leak:
+        run.violation(rule, f, 'environment item neither freed nor listed', 'setup_global can return without freeing `%s` and without appending it to '
+                      'environment_module.items: when the name is already registered the new item is dropped — one item per repeated global '
+                      'name is never returned to the allocator' % var, line=crea[0]['l'])
+    run.control(rule, 'release and listing of the item found', len(owners) >= 2 or leak)
+    return 1
